@@ -84,8 +84,8 @@ def run_batches(prop, vseed, tier, n_runs, batch_size, workers, outdir, wall_lim
         bno, start, count = bt
         env = dict(env_base)
         env['PYTHONHASHSEED'] = str(hashseed_for(vseed, prop, bno))
-        errp = os.path.join(outdir, f'.{prop}-b{bno}.err')
-        outp = os.path.join(outdir, f'.{prop}-b{bno}.out')
+        errp = os.path.join(outdir, f'.{prop}-{os.getpid()}-b{bno}.err')
+        outp = os.path.join(outdir, f'.{prop}-{os.getpid()}-b{bno}.out')
         p = subprocess.Popen(
             [PY, '-X', 'faulthandler', '-m', 'ddsim.worker', prop, str(vseed), str(start), str(count), tier, outdir],
             stdout=open(outp, 'w'), stderr=open(errp, 'w'), env=env, cwd=VERIF)
